@@ -298,6 +298,9 @@ func configureK(x *vc.Exec) {
 				return true
 			}
 		}
+		if name == "path/filepath.Base" {
+			return true
+		}
 		// position accessors of AST-like nodes
 		if strings.HasPrefix(name, "invoke ") && (strings.HasSuffix(name, ".Pos") || strings.HasSuffix(name, ".End")) {
 			return true
